@@ -1,5 +1,5 @@
 #!/usr/bin/env python3
-"""sweep_seeds.py [props...] [--only Cxx]: run the given checks (default: every claimed property) against every seeded
+"""sweep_seeds.py [props...] [--only Cxx] [--only-suffix mK] [--merge]: run the given checks (default: every claimed property) against every seeded
 change under /verif/seeded, each applied to a scratch copy of /repo. Prints a kill matrix and writes seeded/RESULTS.json."""
 import json, os, sys, concurrent.futures as cf
 sys.path.insert(0, os.path.dirname(os.path.abspath(__file__)))
@@ -9,6 +9,11 @@ VERIF = os.path.dirname(os.path.dirname(os.path.abspath(__file__)))
 def main():
     args = sys.argv[1:]
     only = None
+    merge = '--merge' in args          # keep the results of seeds not selected by --only (suffix match with --only-suffix)
+    args = [a for a in args if a != '--merge']
+    suffix = None
+    if '--only-suffix' in args:
+        i = args.index('--only-suffix'); suffix = args[i+1]; del args[i:i+2]
     if '--only' in args:
         i = args.index('--only'); only = args[i+1]; del args[i:i+2]
     man = json.load(open(os.path.join(VERIF, 'MANIFEST.json')))
@@ -17,10 +22,14 @@ def main():
     seeds = sorted(d for d in os.listdir(os.path.join(VERIF, 'seeded')) if os.path.isdir(os.path.join(VERIF, 'seeded', d)))
     if only:
         seeds = [s for s in seeds if s.startswith(only)]
+    if suffix:
+        seeds = [s for s in seeds if s.endswith('-' + suffix)]
     results = {}
+    if merge:
+        results = json.load(open(os.path.join(VERIF, 'seeded', 'RESULTS.json')))
     def one(s):
         return s, run(os.path.join(VERIF, 'seeded', s, 'patch.diff'), props)
-    with cf.ThreadPoolExecutor(max_workers=8) as ex:
+    with cf.ThreadPoolExecutor(max_workers=int(os.environ.get('SWEEP_WORKERS', '8'))) as ex:
         for s, res in ex.map(one, seeds):
             results[s] = res
             target = s.split('-')[0]
